@@ -57,6 +57,15 @@ CHECKS["C05"] = dict(
     design_ref="4/C05",
 )
 
+CHECKS["C02"] = dict(
+    engine="mirsym+kani",
+    technique="SMT (z3/cvc5, bit-vectors) over a symbolic execution of the real MIR of KademliaRoutingTable::{find_closest_nodes, add_node, remove_node} (with KBucket, DhtKey::distance, the sort comparator) on well-formed tables with symbolic contents; Kani/CBMC for the bucket-index kernel",
+    category="proof",
+    text="KERNEL claim (first sentence of the property): for well-formed tables (local id 0 by XOR symmetry; populated buckets at listed positions with symbolic fill and fully symbolic remaining id bits), symbolic key and count, the answer has min(count,size) entries, is strictly ascending in XOR distance (hence duplicate-free), consists of table entries and leaves no closer entry out; add/remove keep the table well-formed (each peer once, never self). Three genuine defects found this way on the original tree were replayed natively and repaired in /repo (known_findings.json).",
+    note="The reply-merge half (find_closest_nodes_local / handle_lookup_request, async) and the protocol caps in handle_request are NOT claimed. Trusts the Vec/iterator/sort summaries, the solvers, the XOR-translation symmetry assumption (local id = 0) and the listed layouts/bounds.",
+    design_ref="4/C02",
+)
+
 NA = {
     "C01": "monolithic async fn over tokio/QUIC transport with string-keyed hash sets and timeouts; no solver-reachable encoding of the real code",
     "C02": "pending: routing-table kernel check not built yet",
